@@ -144,4 +144,36 @@ theorem all_eq_of_completes {w : Pending} (h : Completes w) : ∀ a ∈ w, ∀ b
           have htb : tb ∈ w0.map List.tail := List.mem_map.mpr ⟨cb :: tb, hb, rfl⟩
           rw [ha', hb', ih ta hta tb htb]
 
+/-- two ranks with different sequences: the matcher runs into a state where nobody can move and somebody waits -/
+theorem stuck_of_ne (a : Trace) : ∀ (w : Pending) (b : Trace), a ∈ w → b ∈ w → a ≠ b → ∃ w', Reach w w' ∧ Stuck w' := by
+  induction a with
+  | nil =>
+    intro w b ha hb hne
+    refine ⟨w, Reach.refl w, ?_, ?_⟩
+    · intro hd; exact hne (hd b hb).symm
+    · rintro ⟨w', hs⟩
+      cases hs with
+      | fire c _ _ hh => have := hh [] ha; simp at this
+  | cons c ta ih =>
+    intro w b ha hb hne
+    by_cases hstep : ∃ w', Step w w'
+    · obtain ⟨w', hs⟩ := hstep
+      cases hs with
+      | fire c' _ hnil hh =>
+        have h1 := hh (c :: ta) ha
+        have h2 := hh b hb
+        simp only [List.head?_cons, Option.some.injEq] at h1
+        cases b with
+        | nil => simp at h2
+        | cons cb tb =>
+          simp only [List.head?_cons, Option.some.injEq] at h2
+          have hne' : ta ≠ tb := by
+            intro h; apply hne; rw [h1, h2, h]
+          have hta : ta ∈ w.map List.tail := List.mem_map.mpr ⟨c :: ta, ha, rfl⟩
+          have htb : tb ∈ w.map List.tail := List.mem_map.mpr ⟨cb :: tb, hb, rfl⟩
+          obtain ⟨w'', hr, hst⟩ := ih (w.map List.tail) tb hta htb hne'
+          exact ⟨w'', Reach.step (Step.fire c' w hnil hh) hr, hst⟩
+    · refine ⟨w, Reach.refl w, ?_, hstep⟩
+      intro hd; have := hd (c :: ta) ha; cases this
+
 end PnVerif.World
